@@ -982,3 +982,73 @@ func (c *Ctx) indexPredCalls() {
 		}
 	}
 }
+
+// pureScalarFn: a plain function of the module over numbers, strings and booleans that
+// computes its results from its operands and nothing else — no receiver, no pointer, slice,
+// map or interface operand, no store outside its locals, no call except builtins,
+// conversions and other such functions.  Calling it has no effect on any state.
+func (c *Ctx) pureScalarFn(fn *types.Func, depth int) bool {
+	fd := c.declOf[fn]
+	if fn == nil || fd == nil || fd.Body == nil || fd.Recv != nil || depth > 2 {
+		return false
+	}
+	sig := fn.Type().(*types.Signature)
+	basic := func(t *types.Tuple) bool {
+		for i := 0; i < t.Len(); i++ {
+			if _, ok := t.At(i).Type().Underlying().(*types.Basic); !ok {
+				return false
+			}
+		}
+		return true
+	}
+	if !basic(sig.Params()) || !basic(sig.Results()) || sig.Results().Len() == 0 {
+		return false
+	}
+	info := c.pkgOf[fd].TypesInfo
+	ok := true
+	ast.Inspect(fd.Body, func(n ast.Node) bool {
+		switch x := n.(type) {
+		case *ast.AssignStmt:
+			for _, l := range x.Lhs {
+				id, isId := ast.Unparen(l).(*ast.Ident)
+				if !isId {
+					ok = false
+					continue
+				}
+				o := info.Defs[id]
+				if o == nil {
+					o = info.Uses[id]
+				}
+				if v, isVar := o.(*types.Var); id.Name != "_" && (!isVar || v.Pkg() == nil || v.Parent() == v.Pkg().Scope()) {
+					ok = false
+				}
+			}
+		case *ast.IncDecStmt:
+			if v, isVar := identObj(info, x.X).(*types.Var); !isVar || v.Pkg() == nil || v.Parent() == v.Pkg().Scope() {
+				ok = false
+			}
+		case *ast.CallExpr:
+			if tv, isT := info.Types[x.Fun]; isT && tv.IsType() {
+				return true
+			}
+			if id, isId := ast.Unparen(x.Fun).(*ast.Ident); isId {
+				if b, isB := info.Uses[id].(*types.Builtin); isB && b.Name() != "panic" && b.Name() != "print" && b.Name() != "println" {
+					return true
+				}
+			}
+			if g := originOf(Callee(info, x)); g != nil && g != fn && c.pureScalarFn(g, depth+1) {
+				return true
+			}
+			ok = false
+		case *ast.GoStmt, *ast.DeferStmt, *ast.SendStmt, *ast.FuncLit:
+			ok = false
+		case *ast.Ident:
+			// reading a package-level variable makes the result depend on state
+			if v, isVar := info.Uses[x].(*types.Var); isVar && v.Pkg() != nil && v.Parent() == v.Pkg().Scope() {
+				ok = false
+			}
+		}
+		return ok
+	})
+	return ok
+}
